@@ -679,6 +679,7 @@ class OutputSchemaBuilder(
                         default = serialize(
                             param_type,
                             param.default,
+                            aliaser=self.aliaser,
                             fall_back_on_any=False,
                             check_type=True,
                         )
